@@ -354,7 +354,8 @@ def st_refuse(draw):
     cfg = draw(st_cfg())
     why = draw(st.sampled_from(["only_basic/date", "only_basic/time",
                                 "only_basic/zone", "mix/basic_date_ext_time",
-                                "mix/ext_date_basic_time"]))
+                                "mix/ext_date_basic_time",
+                                "only_basic/zone_truncated"]))
     dn = draw(G.st_dn(cm, st.integers(1, 9998)))
     y, mo, d = R.cal_from_dn(cm, dn)
     vals = {"year": y, "month": mo, "day": d, "doy": R.ord_from_dn(cm, dn)[1]}
@@ -389,6 +390,20 @@ def st_refuse(draw):
         text = enc(df) + "T" + F.encode_time(tf, draw(st_time_values(tf)))
         if draw(st.booleans()):
             text += "Z"
+    elif why == "only_basic/zone_truncated":
+        # a basic-only parser that also reads truncated forms: a time-only or
+        # truncated-date expression with the extended zone form
+        cfg["truncated"] = True
+        tf = draw(st.sampled_from([f for f in F.TIME_FORMS if
+                                   f["notation"] == "basic" and
+                                   f["type"] in ("complete", "reduced") and
+                                   "mm" in f["toks"]]))
+        h, m = draw(G.st_tz())
+        if m == 0:
+            m = 30 if h >= 0 else -30
+        text = draw(st.sampled_from(["", "", "-W-%d" % wd, "---%02d" % d])) + \
+            "T" + F.encode_time(tf, draw(st_time_values(tf))) + \
+            F.encode_zone(F.zone_form("+hh:mm", "extended"), h, m)
     elif why == "only_basic/zone":
         df = draw(st.sampled_from(plain([f for f in F.DATE_FORMS if
                                          f["notation"] == "basic" and
